@@ -995,3 +995,22 @@ VARIANTS += [
  dict(name='scan-descriptor-level-reported-twice', file=P, expect='flagged(scan/reports-both-levels)',
       find='\tunknownAttributes := append(getKeySet(descriptor), getKeySet(targetArtifactMap)...)', replace='\tunknownAttributes := append(getKeySet(descriptor), getKeySet(descriptor)...)'),
 ]
+
+# ---- further members of the table class: set filled by an init function, comparison of the looked-up flag with a boolean
+# constant. (A sorted list searched with sort.SearchStrings is accepted by the scan rules, but the index inventory shared
+# with C12 does not tie the returned index to the length of a package-level slice: no variant.)
+SCAN_TABLE_INIT_FILLED = _sub(SCAN_TABLE_MAP, 'var knownDescriptorAttributes = map[string]struct{}{\n\t"mediaType":    {},\n\t"digest":       {},\n\t"size":         {},\n\t"urls":         {},\n\t"annotations":  {},\n\t"data":         {},\n\t"platform":     {},\n\t"artifactType": {},\n}\n',
+                              'var knownDescriptorAttributes = map[string]struct{}{}\n\nfunc init() {\n\tfor _, attribute := range [...]string{' + KNOWN8 + '} {\n\t\tknownDescriptorAttributes[attribute] = struct{}{}\n\t}\n}\n')
+VARIANTS += [
+ dict(name='benign-scan-table-set-filled-by-init', file=P, expect='silent', find=SCAN, replace=SCAN_TABLE_INIT_FILLED,
+      why='the only insertions are made by an init function, under elements of a literal array of constants'),
+ dict(name='benign-scan-table-bool-set-compared-with-false', file=P, expect='silent', find=SCAN,
+      replace=_sub(SCAN_TABLE_BOOLMAP, '\t\tif expectedInDescriptor[name] {\n\t\t\tcontinue\n\t\t}\n\t\textra = append(extra, name)\n', '\t\tif expectedInDescriptor[name] == false {\n\t\t\textra = append(extra, name)\n\t\t}\n'),
+      why='table[key] == false is the negation of table[key]'),
+ dict(name='table-set-filled-by-exported-function', file=P, expect='flagged(scan/)', find=SCAN,
+      replace=_sub(SCAN_TABLE_INIT_FILLED, 'func init() {\n', '// InitDescriptorAttributes fills the table.\nfunc InitDescriptorAttributes() {\n')),
+ dict(name='table-set-init-adds-extra-key', file=P, expect='flagged(scan/removes-only-descriptor-fields)', find=SCAN,
+      replace=_sub(SCAN_TABLE_INIT_FILLED, '{' + KNOWN8 + '} {\n', '{' + KNOWN8 + ', "subject"} {\n')),
+ dict(name='table-bool-set-compared-with-true-by-mistake', file=P, expect='flagged(scan/)', find=SCAN,
+      replace=_sub(SCAN_TABLE_BOOLMAP, '\t\tif expectedInDescriptor[name] {\n\t\t\tcontinue\n\t\t}\n\t\textra = append(extra, name)\n', '\t\tif expectedInDescriptor[name] == true {\n\t\t\textra = append(extra, name)\n\t\t}\n')),
+]
